@@ -194,11 +194,7 @@ func (i *InMemCollector) Start() error {
 	i.done = make(chan struct{})
 	i.reload = make(chan struct{}, 1)
 
-	if i.Config.GetAddHostMetadataToTrace() {
-		if hostname, err := os.Hostname(); err == nil && hostname != "" {
-			i.hostname = hostname
-		}
-	}
+	i.refreshHostname()
 
 	// Initialize runtime/metrics sample for efficient memory monitoring
 	i.memMetricSample = make([]rtmetrics.Sample, 1)
@@ -227,6 +223,28 @@ func (i *InMemCollector) Start() error {
 	return nil
 }
 
+// refreshHostname records the hostname to add to forwarded spans, or "" when
+// AddHostMetadataToTrace is off. It runs at startup and on every config reload
+// because the option is reloadable.
+func (i *InMemCollector) refreshHostname() {
+	hostname := ""
+	if i.Config.GetAddHostMetadataToTrace() {
+		if h, err := os.Hostname(); err == nil {
+			hostname = h
+		}
+	}
+	i.mutex.Lock()
+	i.hostname = hostname
+	i.mutex.Unlock()
+}
+
+// localHostname returns the hostname to add to forwarded spans, if any.
+func (i *InMemCollector) localHostname() string {
+	i.mutex.RLock()
+	defer i.mutex.RUnlock()
+	return i.hostname
+}
+
 // sendReloadSignal will trigger the collector reloading its config, eventually.
 func (i *InMemCollector) sendReloadSignal(cfgHash, ruleHash string) {
 	// non-blocking insert of the signal here so we don't leak goroutines
@@ -244,6 +262,8 @@ func (i *InMemCollector) reloadConfigs() {
 	i.SamplerFactory.ClearDynsamplers()
 
 	i.StressRelief.UpdateFromConfig()
+
+	i.refreshHostname()
 
 	// Send reload signals to all workers to clear their local samplers
 	// so that the new configuration will be propagated
@@ -486,8 +506,8 @@ func (i *InMemCollector) ProcessSpanImmediately(sp *types.Span) (processed bool,
 	if i.Config.GetAddRuleReasonToTrace() {
 		sp.Data.Set(types.MetaRefineryReason, reason)
 	}
-	if i.hostname != "" {
-		sp.Data.Set(types.MetaRefineryLocalHostname, i.hostname)
+	if hostname := i.localHostname(); hostname != "" {
+		sp.Data.Set(types.MetaRefineryLocalHostname, hostname)
 	}
 
 	i.addAdditionalAttributes(sp)
@@ -505,7 +525,7 @@ func (i *InMemCollector) dealWithSentTrace(ctx context.Context, tr cache.TraceSe
 	_, span := otelutil.StartSpanMulti(ctx, i.Tracer, "dealWithSentTrace", map[string]interface{}{
 		"trace_id":    sp.TraceID,
 		"kept_reason": keptReason,
-		"hostname":    i.hostname,
+		"hostname":    i.localHostname(),
 	})
 	defer span.End()
 
@@ -520,8 +540,8 @@ func (i *InMemCollector) dealWithSentTrace(ctx context.Context, tr cache.TraceSe
 		sp.Data.Set(types.MetaRefinerySendReason, TraceSendLateSpan)
 
 	}
-	if i.hostname != "" {
-		sp.Data.Set(types.MetaRefineryLocalHostname, i.hostname)
+	if hostname := i.localHostname(); hostname != "" {
+		sp.Data.Set(types.MetaRefineryLocalHostname, hostname)
 	}
 	isDryRun := i.Config.GetIsDryRun()
 	keep := tr.Kept()
@@ -748,8 +768,8 @@ func (i *InMemCollector) sendTraces() {
 			if isDryRun {
 				sp.Data.Set(config.DryRunFieldName, t.shouldSend)
 			}
-			if i.hostname != "" {
-				sp.Data.Set(types.MetaRefineryLocalHostname, i.hostname)
+			if hostname := i.localHostname(); hostname != "" {
+				sp.Data.Set(types.MetaRefineryLocalHostname, hostname)
 			}
 			mergeTraceAndSpanSampleRates(sp, t.SampleRate(), isDryRun)
 			i.addAdditionalAttributes(sp)
